@@ -2548,7 +2548,7 @@ class Recipe:
             after_substances += step.trash.get(substance, 0)
             delta += after_substances - before_substances
 
-        if delta < 0:
+        if round(delta, config.internal_precision) < 0:
             raise ValueError(
                 f"Destination containers contain {-delta} {from_unit} less of substance {substance}" +
                 " after stage {timeframe}. Did you specify the correct destinations?")
